@@ -723,6 +723,8 @@ public:
             m_elem[i].idx = sv.index(i);
          }
 
+         set_size(sv.size());
+
          assert(isConsistent());
       }
 
@@ -753,6 +755,8 @@ public:
                m_elem[i].idx = sv.index(i);
             }
          }
+
+         set_size(sv.size());
 
          assert(isConsistent());
       }
